@@ -62,3 +62,368 @@ Proof. exact negate_op_correct. Qed.
 
 Theorem C01_swap_table : forall o a b, rel_holds (switch_op o) b a = rel_holds o a b.
 Proof. exact switch_op_correct. Qed.
+
+
+(** * Lowering templates (Model/GenTemplates.v): the exact instruction sequences the generator emits
+    for 39 statement forms (compared with the real generator's output on every run by
+    tools/lib/gentpl.py), each proved on the 6502 semantics ([Sem.run]) to compute the C value for
+    ALL machine states: the destination gets the value, no other cell changes, X Y S are kept.
+    Proofs in Proofs/GenTemplatesFacts.v. *)
+From CC Require Import Model.Optimize Model.OptSem Model.GenTemplates Proofs.GenTemplatesFacts.
+
+Theorem C01_tpl_copy8 : forall cfg dst x pd px st,
+  ports cfg = [] -> var_name dst -> var_name x ->
+  layout cfg dst = Some pd -> layout cfg x = Some px ->
+  0 <= pd < 65536 -> 0 <= px < 65536 ->
+  exists st', runs_to cfg (template (SCopy8 dst x)) st st' /\
+    mget (mem st') pd = mget (mem st) px /\
+    only_changes [pd] st st' /\ keeps_xys st st'.
+Proof. exact copy8_correct. Qed.
+
+Theorem C01_tpl_add8 : forall cfg dst x y pd px py st,
+  ports cfg = [] -> var_name dst -> var_name x -> var_name y ->
+  layout cfg dst = Some pd -> layout cfg x = Some px -> layout cfg y = Some py ->
+  0 <= pd < 65536 -> 0 <= px < 65536 -> 0 <= py < 65536 ->
+  exists st', runs_to cfg (template (SAdd8 dst x y)) st st' /\
+    mget (mem st') pd = (mget (mem st) px + mget (mem st) py) mod 256 /\
+    only_changes [pd] st st' /\ keeps_xys st st'.
+Proof. exact add8_correct. Qed.
+
+Theorem C01_tpl_sub8 : forall cfg dst x y pd px py st,
+  ports cfg = [] -> var_name dst -> var_name x -> var_name y ->
+  layout cfg dst = Some pd -> layout cfg x = Some px -> layout cfg y = Some py ->
+  0 <= pd < 65536 -> 0 <= px < 65536 -> 0 <= py < 65536 ->
+  exists st', runs_to cfg (template (SSub8 dst x y)) st st' /\
+    mget (mem st') pd = (mget (mem st) px - mget (mem st) py) mod 256 /\
+    only_changes [pd] st st' /\ keeps_xys st st'.
+Proof. exact sub8_correct. Qed.
+
+Theorem C01_tpl_and8 : forall cfg dst x y pd px py st,
+  ports cfg = [] -> var_name dst -> var_name x -> var_name y ->
+  layout cfg dst = Some pd -> layout cfg x = Some px -> layout cfg y = Some py ->
+  0 <= pd < 65536 -> 0 <= px < 65536 -> 0 <= py < 65536 ->
+  exists st', runs_to cfg (template (SAnd8 dst x y)) st st' /\
+    mget (mem st') pd = Z.land (mget (mem st) px) (mget (mem st) py) /\
+    only_changes [pd] st st' /\ keeps_xys st st'.
+Proof. exact and8_correct. Qed.
+
+Theorem C01_tpl_or8 : forall cfg dst x y pd px py st,
+  ports cfg = [] -> var_name dst -> var_name x -> var_name y ->
+  layout cfg dst = Some pd -> layout cfg x = Some px -> layout cfg y = Some py ->
+  0 <= pd < 65536 -> 0 <= px < 65536 -> 0 <= py < 65536 ->
+  exists st', runs_to cfg (template (SOr8 dst x y)) st st' /\
+    mget (mem st') pd = Z.lor (mget (mem st) px) (mget (mem st) py) /\
+    only_changes [pd] st st' /\ keeps_xys st st'.
+Proof. exact or8_correct. Qed.
+
+Theorem C01_tpl_xor8 : forall cfg dst x y pd px py st,
+  ports cfg = [] -> var_name dst -> var_name x -> var_name y ->
+  layout cfg dst = Some pd -> layout cfg x = Some px -> layout cfg y = Some py ->
+  0 <= pd < 65536 -> 0 <= px < 65536 -> 0 <= py < 65536 ->
+  exists st', runs_to cfg (template (SXor8 dst x y)) st st' /\
+    mget (mem st') pd = Z.lxor (mget (mem st) px) (mget (mem st) py) /\
+    only_changes [pd] st st' /\ keeps_xys st st'.
+Proof. exact xor8_correct. Qed.
+
+Theorem C01_tpl_addconst8 : forall cfg dst x k pd px st,
+  ports cfg = [] -> var_name dst -> var_name x ->
+  layout cfg dst = Some pd -> layout cfg x = Some px ->
+  0 <= pd < 65536 -> 0 <= px < 65536 -> 0 <= k < 256 ->
+  exists st', runs_to cfg (template (SAddConst8 dst x k)) st st' /\
+    mget (mem st') pd = (mget (mem st) px + k) mod 256 /\
+    only_changes [pd] st st' /\ keeps_xys st st'.
+Proof. exact addconst8_correct. Qed.
+
+Theorem C01_tpl_inc8 : forall cfg v pv st,
+  ports cfg = [] -> var_name v -> layout cfg v = Some pv -> 0 <= pv < 65536 ->
+  exists st', runs_to cfg (template (SInc8 v)) st st' /\
+    mget (mem st') pv = (mget (mem st) pv + 1) mod 256 /\
+    only_changes [pv] st st' /\ keeps_xys st st'.
+Proof. exact inc8_correct. Qed.
+
+Theorem C01_tpl_dec8 : forall cfg v pv st,
+  ports cfg = [] -> var_name v -> layout cfg v = Some pv -> 0 <= pv < 65536 ->
+  exists st', runs_to cfg (template (SDec8 v)) st st' /\
+    mget (mem st') pv = (mget (mem st) pv - 1) mod 256 /\
+    only_changes [pv] st st' /\ keeps_xys st st'.
+Proof. exact dec8_correct. Qed.
+
+Theorem C01_tpl_addassign8 : forall cfg v x pv px st,
+  ports cfg = [] -> var_name v -> var_name x ->
+  layout cfg v = Some pv -> layout cfg x = Some px ->
+  0 <= pv < 65536 -> 0 <= px < 65536 ->
+  exists st', runs_to cfg (template (SAddAssign8 v x)) st st' /\
+    mget (mem st') pv = (mget (mem st) pv + mget (mem st) px) mod 256 /\
+    only_changes [pv] st st' /\ keeps_xys st st'.
+Proof. exact addassign8_correct. Qed.
+
+Theorem C01_tpl_subassign8 : forall cfg v x pv px st,
+  ports cfg = [] -> var_name v -> var_name x ->
+  layout cfg v = Some pv -> layout cfg x = Some px ->
+  0 <= pv < 65536 -> 0 <= px < 65536 ->
+  exists st', runs_to cfg (template (SSubAssign8 v x)) st st' /\
+    mget (mem st') pv = (mget (mem st) pv - mget (mem st) px) mod 256 /\
+    only_changes [pv] st st' /\ keeps_xys st st'.
+Proof. exact subassign8_correct. Qed.
+
+Theorem C01_tpl_neg8 : forall cfg dst x pd px st,
+  ports cfg = [] -> var_name dst -> var_name x ->
+  layout cfg dst = Some pd -> layout cfg x = Some px ->
+  0 <= pd < 65536 -> 0 <= px < 65536 ->
+  exists st', runs_to cfg (template (SNeg8 dst x)) st st' /\
+    mget (mem st') pd = (256 - mget (mem st) px) mod 256 /\
+    only_changes [pd] st st' /\ keeps_xys st st'.
+Proof. exact neg8_correct. Qed.
+
+Theorem C01_tpl_not8 : forall cfg dst x pd px st,
+  ports cfg = [] -> var_name dst -> var_name x ->
+  layout cfg dst = Some pd -> layout cfg x = Some px ->
+  0 <= pd < 65536 -> 0 <= px < 65536 -> bytes_ok st ->
+  exists st', runs_to cfg (template (SNot8 dst x)) st st' /\
+    mget (mem st') pd = 255 - mget (mem st) px /\
+    only_changes [pd] st st' /\ keeps_xys st st'.
+Proof. exact not8_correct. Qed.
+
+Theorem C01_tpl_shl8 : forall cfg dst x n pd px st,
+  ports cfg = [] -> var_name dst -> var_name x ->
+  layout cfg dst = Some pd -> layout cfg x = Some px ->
+  0 <= pd < 65536 -> 0 <= px < 65536 -> bytes_ok st ->
+  exists st', runs_to cfg (template (SShl8 dst x n)) st st' /\
+    mget (mem st') pd = (mget (mem st) px * 2 ^ Z.of_nat n) mod 256 /\
+    only_changes [pd] st st' /\ keeps_xys st st'.
+Proof. exact shl8_correct. Qed.
+
+Theorem C01_tpl_shr8 : forall cfg dst x n pd px st,
+  ports cfg = [] -> var_name dst -> var_name x ->
+  layout cfg dst = Some pd -> layout cfg x = Some px ->
+  0 <= pd < 65536 -> 0 <= px < 65536 -> bytes_ok st ->
+  exists st', runs_to cfg (template (SShr8 dst x n)) st st' /\
+    mget (mem st') pd = mget (mem st) px / 2 ^ Z.of_nat n /\
+    only_changes [pd] st st' /\ keeps_xys st st'.
+Proof. exact shr8_correct. Qed.
+
+Theorem C01_tpl_sar8_1 : forall cfg dst x pd px st,
+  ports cfg = [] -> var_name dst -> var_name x ->
+  layout cfg dst = Some pd -> layout cfg x = Some px ->
+  0 <= pd < 65536 -> 0 <= px < 65536 -> bytes_ok st ->
+  exists st', runs_to cfg (template (SSar8_1 dst x)) st st' /\
+    mget (mem st') pd = mget (mem st) px / 2 + (if 128 <=? mget (mem st) px then 128 else 0) /\
+    only_changes [pd] st st' /\ keeps_xys st st'.
+Proof. exact sar8_1_correct. Qed.
+
+Theorem C01_tpl_loadx : forall cfg v pv st,
+  ports cfg = [] -> var_name v -> layout cfg v = Some pv -> 0 <= pv < 65536 ->
+  exists st', runs_to cfg (template (SLoadX v)) st st' /\
+    rX st' = mget (mem st) pv /\
+    only_changes [] st st' /\ rY st' = rY st /\ rS st' = rS st.
+Proof. exact loadx_correct. Qed.
+
+Theorem C01_tpl_loady : forall cfg v pv st,
+  ports cfg = [] -> var_name v -> layout cfg v = Some pv -> 0 <= pv < 65536 ->
+  exists st', runs_to cfg (template (SLoadY v)) st st' /\
+    rY st' = mget (mem st) pv /\
+    only_changes [] st st' /\ rX st' = rX st /\ rS st' = rS st.
+Proof. exact loady_correct. Qed.
+
+Theorem C01_tpl_storex : forall cfg v pv st,
+  ports cfg = [] -> var_name v -> layout cfg v = Some pv -> 0 <= pv < 65536 ->
+  exists st', runs_to cfg (template (SStoreX v)) st st' /\
+    mget (mem st') pv = rX st /\
+    only_changes [pv] st st' /\ keeps_xys st st'.
+Proof. exact storex_correct. Qed.
+
+Theorem C01_tpl_storey : forall cfg v pv st,
+  ports cfg = [] -> var_name v -> layout cfg v = Some pv -> 0 <= pv < 65536 ->
+  exists st', runs_to cfg (template (SStoreY v)) st st' /\
+    mget (mem st') pv = rY st /\
+    only_changes [pv] st st' /\ keeps_xys st st'.
+Proof. exact storey_correct. Qed.
+
+Theorem C01_tpl_copy16 : forall cfg dst x pd px st,
+  ports cfg = [] -> var_name dst -> var_name x ->
+  layout cfg dst = Some pd -> layout cfg x = Some px ->
+  0 <= pd -> pd + 1 < 65536 -> 0 <= px -> px + 1 < 65536 ->
+  pd <> px + 1 ->
+  exists st', runs_to cfg (template (SCopy16 dst x)) st st' /\
+    mget (mem st') pd = mget (mem st) px /\ mget (mem st') (pd + 1) = mget (mem st) (px + 1) /\
+    word (mem st') pd = word (mem st) px /\
+    only_changes [pd; pd + 1] st st' /\ keeps_xys st st'.
+Proof. exact copy16_correct. Qed.
+
+Theorem C01_tpl_add16 : forall cfg dst x y pd px py st,
+  ports cfg = [] -> var_name dst -> var_name x -> var_name y ->
+  layout cfg dst = Some pd -> layout cfg x = Some px -> layout cfg y = Some py ->
+  0 <= pd -> pd + 1 < 65536 -> 0 <= px -> px + 1 < 65536 -> 0 <= py -> py + 1 < 65536 ->
+  pd <> px + 1 -> pd <> py + 1 -> bytes_ok st ->
+  exists st', runs_to cfg (template (SAdd16 dst x y)) st st' /\
+    word (mem st') pd = (word (mem st) px + word (mem st) py) mod 65536 /\
+    only_changes [pd; pd + 1] st st' /\ keeps_xys st st'.
+Proof. exact add16_correct. Qed.
+
+Theorem C01_tpl_sub16 : forall cfg dst x y pd px py st,
+  ports cfg = [] -> var_name dst -> var_name x -> var_name y ->
+  layout cfg dst = Some pd -> layout cfg x = Some px -> layout cfg y = Some py ->
+  0 <= pd -> pd + 1 < 65536 -> 0 <= px -> px + 1 < 65536 -> 0 <= py -> py + 1 < 65536 ->
+  pd <> px + 1 -> pd <> py + 1 -> bytes_ok st ->
+  exists st', runs_to cfg (template (SSub16 dst x y)) st st' /\
+    word (mem st') pd = (word (mem st) px - word (mem st) py) mod 65536 /\
+    only_changes [pd; pd + 1] st st' /\ keeps_xys st st'.
+Proof. exact sub16_correct. Qed.
+
+Theorem C01_tpl_and16 : forall cfg dst x y pd px py st,
+  ports cfg = [] -> var_name dst -> var_name x -> var_name y ->
+  layout cfg dst = Some pd -> layout cfg x = Some px -> layout cfg y = Some py ->
+  0 <= pd -> pd + 1 < 65536 -> 0 <= px -> px + 1 < 65536 -> 0 <= py -> py + 1 < 65536 ->
+  pd <> px + 1 -> pd <> py + 1 -> bytes_ok st ->
+  exists st', runs_to cfg (template (SAnd16 dst x y)) st st' /\
+    mget (mem st') pd = Z.land (mget (mem st) px) (mget (mem st) py) /\
+    mget (mem st') (pd + 1) = Z.land (mget (mem st) (px + 1)) (mget (mem st) (py + 1)) /\
+    word (mem st') pd = Z.land (word (mem st) px) (word (mem st) py) /\
+    only_changes [pd; pd + 1] st st' /\ keeps_xys st st'.
+Proof. exact and16_correct. Qed.
+
+Theorem C01_tpl_or16 : forall cfg dst x y pd px py st,
+  ports cfg = [] -> var_name dst -> var_name x -> var_name y ->
+  layout cfg dst = Some pd -> layout cfg x = Some px -> layout cfg y = Some py ->
+  0 <= pd -> pd + 1 < 65536 -> 0 <= px -> px + 1 < 65536 -> 0 <= py -> py + 1 < 65536 ->
+  pd <> px + 1 -> pd <> py + 1 -> bytes_ok st ->
+  exists st', runs_to cfg (template (SOr16 dst x y)) st st' /\
+    mget (mem st') pd = Z.lor (mget (mem st) px) (mget (mem st) py) /\
+    mget (mem st') (pd + 1) = Z.lor (mget (mem st) (px + 1)) (mget (mem st) (py + 1)) /\
+    word (mem st') pd = Z.lor (word (mem st) px) (word (mem st) py) /\
+    only_changes [pd; pd + 1] st st' /\ keeps_xys st st'.
+Proof. exact or16_correct. Qed.
+
+Theorem C01_tpl_inc16 : forall cfg v lbl pv st,
+  ports cfg = [] -> var_name v -> lbl <> ""%string -> layout cfg v = Some pv ->
+  0 <= pv -> pv + 1 < 65536 -> bytes_ok st ->
+  exists st', runs_to cfg (template (SInc16 v lbl)) st st' /\
+    word (mem st') pv = (word (mem st) pv + 1) mod 65536 /\
+    only_changes [pv; pv + 1] st st' /\ keeps_xys st st'.
+Proof. exact inc16_correct. Qed.
+
+Theorem C01_tpl_dec16 : forall cfg v lbl pv st,
+  ports cfg = [] -> var_name v -> lbl <> ""%string -> layout cfg v = Some pv ->
+  0 <= pv -> pv + 1 < 65536 -> bytes_ok st ->
+  exists st', runs_to cfg (template (SDec16 v lbl)) st st' /\
+    word (mem st') pv = (word (mem st) pv - 1) mod 65536 /\
+    only_changes [pv; pv + 1] st st' /\ keeps_xys st st'.
+Proof. exact dec16_correct. Qed.
+
+Theorem C01_tpl_addconst16 : forall cfg v k pv st,
+  ports cfg = [] -> var_name v -> layout cfg v = Some pv ->
+  0 <= pv -> pv + 1 < 65536 -> 0 <= k < 65536 -> bytes_ok st ->
+  exists st', runs_to cfg (template (SAddConst16 v k)) st st' /\
+    word (mem st') pv = (word (mem st) pv + k) mod 65536 /\
+    only_changes [pv; pv + 1] st st' /\ keeps_xys st st'.
+Proof. exact addconst16_correct. Qed.
+
+Theorem C01_tpl_subconst16 : forall cfg v k pv st,
+  ports cfg = [] -> var_name v -> layout cfg v = Some pv ->
+  0 <= pv -> pv + 1 < 65536 -> 0 <= k < 65536 -> bytes_ok st ->
+  exists st', runs_to cfg (template (SSubConst16 v k)) st st' /\
+    word (mem st') pv = (word (mem st) pv - k) mod 65536 /\
+    only_changes [pv; pv + 1] st st' /\ keeps_xys st st'.
+Proof. exact subconst16_correct. Qed.
+
+Theorem C01_tpl_zext : forall cfg dst x pd px st,
+  ports cfg = [] -> var_name dst -> var_name x ->
+  layout cfg dst = Some pd -> layout cfg x = Some px ->
+  0 <= pd -> pd + 1 < 65536 -> 0 <= px < 65536 ->
+  exists st', runs_to cfg (template (SZext dst x)) st st' /\
+    mget (mem st') pd = mget (mem st) px /\ mget (mem st') (pd + 1) = 0 /\
+    word (mem st') pd = mget (mem st) px /\
+    only_changes [pd; pd + 1] st st' /\ keeps_xys st st'.
+Proof. exact zext_correct. Qed.
+
+Theorem C01_tpl_sext : forall cfg dst x lbl pd px st,
+  ports cfg = [] -> var_name dst -> var_name x -> lbl <> ""%string ->
+  layout cfg dst = Some pd -> layout cfg x = Some px ->
+  0 <= pd -> pd + 1 < 65536 -> 0 <= px < 65536 -> bytes_ok st ->
+  exists st', runs_to cfg (template (SSext dst x lbl)) st st' /\
+    mget (mem st') pd = mget (mem st) px /\
+    mget (mem st') (pd + 1) = (if 128 <=? mget (mem st) px then 255 else 0) /\
+    word (mem st') pd
+    = (if 128 <=? mget (mem st) px then mget (mem st) px - 256 else mget (mem st) px) mod 65536 /\
+    only_changes [pd; pd + 1] st st' /\ keeps_xys st st'.
+Proof. exact sext_correct. Qed.
+
+Theorem C01_tpl_shl16_1 : forall cfg v pv st,
+  ports cfg = [] -> var_name v -> layout cfg v = Some pv ->
+  0 <= pv -> pv + 1 < 65536 -> bytes_ok st ->
+  exists st', runs_to cfg (template (SShl16_1 v)) st st' /\
+    word (mem st') pv = (2 * word (mem st) pv) mod 65536 /\
+    only_changes [pv; pv + 1] st st' /\ keeps_xys st st'.
+Proof. exact shl16_1_correct. Qed.
+
+Theorem C01_tpl_shr16_1 : forall cfg v pv st,
+  ports cfg = [] -> var_name v -> layout cfg v = Some pv ->
+  0 <= pv -> pv + 1 < 65536 -> bytes_ok st ->
+  exists st', runs_to cfg (template (SShr16_1 v)) st st' /\
+    word (mem st') pv = word (mem st) pv / 2 /\
+    only_changes [pv; pv + 1] st st' /\ keeps_xys st st'.
+Proof. exact shr16_1_correct. Qed.
+
+Theorem C01_tpl_sar16_1 : forall cfg v pv st,
+  ports cfg = [] -> var_name v -> layout cfg v = Some pv ->
+  0 <= pv -> pv + 1 < 65536 -> bytes_ok st ->
+  exists st', runs_to cfg (template (SSar16_1 v)) st st' /\
+    word (mem st') pv
+    = word (mem st) pv / 2 + (if 128 <=? mget (mem st) (pv + 1) then 32768 else 0) /\
+    only_changes [pv; pv + 1] st st' /\ keeps_xys st st'.
+Proof. exact sar16_1_correct. Qed.
+
+Theorem C01_tpl_add16_8 : forall cfg dst x y pd px py st,
+  ports cfg = [] -> var_name dst -> var_name x -> var_name y ->
+  layout cfg dst = Some pd -> layout cfg x = Some px -> layout cfg y = Some py ->
+  0 <= pd -> pd + 1 < 65536 -> 0 <= px -> px + 1 < 65536 -> 0 <= py < 65536 ->
+  pd <> px + 1 -> bytes_ok st ->
+  exists st', runs_to cfg (template (SAdd16_8 dst x y)) st st' /\
+    word (mem st') pd = (word (mem st) px + mget (mem st) py) mod 65536 /\
+    only_changes [pd; pd + 1] st st' /\ keeps_xys st st'.
+Proof. exact add16_8_correct. Qed.
+
+Theorem C01_tpl_const16 : forall cfg v k pv st,
+  ports cfg = [] -> var_name v -> layout cfg v = Some pv ->
+  0 <= pv -> pv + 1 < 65536 -> 0 <= k < 65536 ->
+  exists st', runs_to cfg (template (SConst16 v k)) st st' /\
+    word (mem st') pv = k /\
+    only_changes [pv; pv + 1] st st' /\ keeps_xys st st'.
+Proof. exact const16_correct. Qed.
+
+Theorem C01_tpl_hibyte : forall cfg dst x pd px st,
+  ports cfg = [] -> var_name dst -> var_name x ->
+  layout cfg dst = Some pd -> layout cfg x = Some px ->
+  0 <= pd < 65536 -> 0 <= px -> px + 1 < 65536 -> bytes_ok st ->
+  exists st', runs_to cfg (template (SHiByte dst x)) st st' /\
+    mget (mem st') pd = mget (mem st) (px + 1) /\
+    mget (mem st') pd = word (mem st) px / 256 /\
+    only_changes [pd] st st' /\ keeps_xys st st'.
+Proof. exact hibyte_correct. Qed.
+
+Theorem C01_tpl_lobyte : forall cfg dst x pd px st,
+  ports cfg = [] -> var_name dst -> var_name x ->
+  layout cfg dst = Some pd -> layout cfg x = Some px ->
+  0 <= pd < 65536 -> 0 <= px -> px + 1 < 65536 -> bytes_ok st ->
+  exists st', runs_to cfg (template (SLoByte dst x)) st st' /\
+    mget (mem st') pd = mget (mem st) px /\
+    mget (mem st') pd = word (mem st) px mod 256 /\
+    only_changes [pd] st st' /\ keeps_xys st st'.
+Proof. exact lobyte_correct. Qed.
+
+Theorem C01_tpl_shl16_8 : forall cfg dst x pd px st,
+  ports cfg = [] -> var_name dst -> var_name x ->
+  layout cfg dst = Some pd -> layout cfg x = Some px ->
+  0 <= pd -> pd + 1 < 65536 -> 0 <= px < 65536 ->
+  pd <> px -> bytes_ok st ->
+  exists st', runs_to cfg (template (SShl16_8 dst x)) st st' /\
+    mget (mem st') pd = 0 /\ mget (mem st') (pd + 1) = mget (mem st) px /\
+    word (mem st') pd = (256 * word (mem st) px) mod 65536 /\
+    only_changes [pd; pd + 1] st st' /\ keeps_xys st st'.
+Proof. exact shl16_8_correct. Qed.
+
+(** known finding F-C01-shl8-self-assign on the model: with source = destination the template stores 0 *)
+Theorem C01_tpl_shl16_8_alias_refuted :
+  exists st st', bytes_ok st /\ runs_to cfg_listing (template (SShl16_8 "s" "s")) st st' /\
+    word (mem st) 134 = 1 /\ (256 * word (mem st) 134) mod 65536 = 256 /\ word (mem st') 134 = 0.
+Proof. exact shl16_8_alias_refuted. Qed.
